@@ -154,6 +154,25 @@ elif m == 'C1':  # method verifier: copy-on-write of its collection, every acces
 	v.mu.Lock()
 	defer v.mu.Unlock()
 	v.err = martian.NewMultiError()''')
+elif m == 'P1':  # verify.Handler encodes into a pooled bytes.Buffer and puts it back after WriteTo - which only drains
+    # the buffer when the write succeeds: after a failed write the remainder goes out ahead of the next report
+    sub('verify/verify_handlers.go', '''import (
+	"encoding/json"
+	"net/http"
+''', '''import (
+	"bytes"
+	"encoding/json"
+	"net/http"
+	"sync"
+''')
+    sub('verify/verify_handlers.go', '''	json.NewEncoder(rw).Encode(vres)
+}''', '''	buf := reportBufs.Get().(*bytes.Buffer)
+	json.NewEncoder(buf).Encode(vres)
+	buf.WriteTo(rw) // drains buf
+	reportBufs.Put(buf)
+}
+
+var reportBufs = sync.Pool{New: func() interface{} { return new(bytes.Buffer) }}''')
 elif m == 'G1':  # reset handler resets before it looks at the method
     sub('verify/verify_handlers.go', '''func (h *ResetHandler) ServeHTTP(rw http.ResponseWriter, req *http.Request) {
 	if req.Method != "POST" {''', '''func (h *ResetHandler) ServeHTTP(rw http.ResponseWriter, req *http.Request) {
